@@ -20,6 +20,8 @@ type c05Case struct {
 	Branch *model.Branch `json:"branch,omitempty"`
 	StopAt int           `json:"stopAt"` // -1: no stop
 	Sp     model.Spelling `json:"spelling"`
+	PreOps []string       `json:"preOps,omitempty"` // From-Root entries: earlier operations on the same node tree
+	Late   int            `json:"late,omitempty"`   // iterator entries: the last Late nodes are added after the iterator was created
 }
 
 func init() { registerReplay("c05", c05Check) }
@@ -38,6 +40,7 @@ func c05Check(c c05Case) string {
 		cs.Entry = c.Entry
 		cs.Root = &c.Forest[0].Name
 		cs.Prog = preorderProgram(c.Forest[0])
+		cs.PreOps = c.PreOps
 		cs.Faults.CallbackFailAt = c.StopAt
 	case "iter", "iteralias":
 		cs.Op = "walkiter"
@@ -46,7 +49,13 @@ func c05Check(c c05Case) string {
 			cs.Entry = "alias"
 		}
 		cs.Root = &c.Forest[0].Name
-		cs.Prog = preorderProgram(c.Forest[0])
+		cs.Prog = preorderProgram(model.Merge(c.Forest)[0])
+		cs.PreOps = c.PreOps
+		if c.Late > 0 && c.Late < len(cs.Prog) {
+			// pre-order program: its tail can be added later without changing the final tree
+			cs.LateProg = cs.Prog[len(cs.Prog)-c.Late:]
+			cs.Prog = cs.Prog[:len(cs.Prog)-c.Late]
+		}
 		cs.Faults.BreakAt = c.StopAt
 	}
 	res := ops.DefaultEnv.Run(&cs)
@@ -127,7 +136,16 @@ func c05Record(col *collector, c c05Case) {
 	if c.Sp.Heading && strings.HasPrefix(c.Entry, "md") {
 		cl = append(cl, "heading-roots")
 	}
-	col.eval(nontrivial, hash64(c.Forest.String(), c.Entry, fmt.Sprint(c.Branch, c.StopAt), model.Spell(c.Forest, c.Sp)), cl...)
+	if len(c.PreOps) > 0 {
+		cl = append(cl, "after-earlier-calls-on-the-same-tree")
+	}
+	if c.Late > 0 {
+		cl = append(cl, "nodes-added-between-iterator-creation-and-range")
+	}
+	if d := model.Merge(c.Forest).Depth(); d >= 18 {
+		cl = append(cl, "depth>=18")
+	}
+	col.eval(nontrivial, hash64(c.Forest.String(), c.Entry, fmt.Sprint(c.Branch, c.StopAt, c.PreOps, c.Late), model.Spell(c.Forest, c.Sp)), cl...)
 	col.sample(func() any { return map[string]any{"forest": c.Forest.String(), "entry": c.Entry, "stopAt": c.StopAt, "branch": c.Branch} })
 }
 
@@ -168,15 +186,24 @@ func c05Gen() *rapid.Generator[c05Case] {
 	return rapid.Custom(func(t *rapid.T) c05Case {
 		entry := rapid.SampledFrom([]string{"md", "md", "root", "iter", "alias", "iteralias", "mdalias"}).Draw(t, "entry")
 		names := sampled(validElemPool())
-		maxNodes := 16
-		if rapid.IntRange(0, 19).Draw(t, "big") == 0 {
+		maxNodes, maxDepth := 16, 10
+		switch rapid.IntRange(0, 19).Draw(t, "big") {
+		case 0:
 			maxNodes = 150
+		case 1, 2: // deep trees (recursion depth, stack growth): up to 90 levels
+			maxNodes, maxDepth = 200, 90
 		}
-		f := genForest(forestParams{maxNodes: maxNodes, maxDepth: 10, names: names, oneRoot: !strings.HasPrefix(entry, "md")}).Draw(t, "forest")
+		f := genForest(forestParams{maxNodes: maxNodes, maxDepth: maxDepth, names: names, oneRoot: !strings.HasPrefix(entry, "md")}).Draw(t, "forest")
 		c := c05Case{Forest: f, Entry: entry, Branch: genBranch().Draw(t, "branch"), StopAt: -1}
 		c.Sp = genSpelling(f.HeadingOK()).Draw(t, "spelling")
 		if rapid.Bool().Draw(t, "stop") {
 			c.StopAt = rapid.IntRange(0, model.Merge(f).Count()-1).Draw(t, "stopAt")
+		}
+		if !strings.HasPrefix(entry, "md") && rapid.IntRange(0, 2).Draw(t, "withPreOps") == 0 {
+			c.PreOps = rapid.SliceOfN(rapid.SampledFrom(preOpPool), 1, 3).Draw(t, "preOps")
+		}
+		if strings.HasPrefix(entry, "iter") && rapid.IntRange(0, 2).Draw(t, "late") == 0 {
+			c.Late = rapid.IntRange(1, 5).Draw(t, "nlate")
 		}
 		return c
 	})
